@@ -69,9 +69,9 @@ Section Relabel.
     intros Hnd. unfold compute. cbn [adj_of].
     eapply rsim_perm_l; [apply Permutation_sym, sort_by_perm|].
     eapply rsim_perm_r; [|apply Permutation_sym, sort_by_perm].
-    apply (compute_pixel_map g (indep_of cs) (indep_of cs)
-             (fun o o' v HP => builtin_indep_rel g cs o o' v Hseeds HP)
-             (inrange shape) (nbrs shape per) (nbrs shape' per')).
+    apply (compute_pixel_map g (inrange shape) (indep_of cs) (indep_of cs)
+             (fun o o' v _ HP => builtin_indep_rel g cs o o' v Hseeds HP)
+             (nbrs shape per) (nbrs shape' per')).
     - intros p q Hp Hq. apply (gi_adj _ _ _ _ _ Hiso); assumption.
     - exact kept_perm.
     - exact Hnd.
@@ -103,15 +103,42 @@ Section Relabel.
     - exact Hr'.
     - exact Hx'.
     - assert (Hrs : rsim g (run (nbrs shape per) (indep_of cs) o) (run (nbrs shape' per') (indep_of cs) (map (gpv g) o))).
-      { apply (run_pixel_map g (indep_of cs) (indep_of cs)
-                 (fun o0 o' v HP0 => builtin_indep_rel g cs o0 o' v Hseeds HP0)
-                 (inrange shape) (nbrs shape per) (nbrs shape' per')).
+      { apply (run_pixel_map g (inrange shape) (indep_of cs) (indep_of cs)
+                 (fun o0 o' v _ HP0 => builtin_indep_rel g cs o0 o' v Hseeds HP0)
+                 (nbrs shape per) (nbrs shape' per')).
         - intros p q Hp Hq. apply (gi_adj _ _ _ _ _ Hiso); assumption.
         - intros pv Hpv. apply Hrange. apply (Permutation_in _ (order_of_perm _)), Hpv. }
       destruct (rsim_In_r g _ _ r2 Hrs Hr2) as [r [Hr Hsim]].
       exists r. split; [exact Hr|]. intros y'. rewrite (Hsame y'). apply (tsim_region_In g r r2 y' Hsim).
   Qed.
 End Relabel.
+
+(* ---- contains_seeds: the same hierarchy when the seed positions are mapped along with the pixels *)
+Section RelabelSeeds.
+  Variables (shape shape' : list Z) (per per' : list bool) (g : Z -> Z).
+  Hypothesis Hiso : giso shape per shape' per' g.
+  Variables (vals vals' : list (option Z)) (minv : option Z) (cs : list crit).
+  Hypothesis Hrange : forall pv, In pv (kept vals minv) -> inrange shape (fst pv).
+  Hypothesis Hcarried : carried g (kept vals minv) (kept vals' minv).
+  Hypothesis Hseeds_in : forall l, In (Seeds l) cs -> forall s, In s l -> inrange shape s.
+
+  Theorem compute_relabelled_seeds :
+    NoDup (map snd (kept vals minv)) ->
+    rsim g (compute shape (AdjGrid per) vals minv cs)
+           (compute shape' (AdjGrid per') vals' minv (map (map_crit g) cs)).
+  Proof.
+    intros Hnd. unfold compute. cbn [adj_of].
+    eapply rsim_perm_l; [apply Permutation_sym, sort_by_perm|].
+    eapply rsim_perm_r; [|apply Permutation_sym, sort_by_perm].
+    apply (compute_pixel_map g (inrange shape) (indep_of cs) (indep_of (map (map_crit g) cs))
+             (fun o o' v Hd HP => mapped_indep_rel g (inrange shape) cs o o' v (gi_inj _ _ _ _ _ Hiso) Hseeds_in Hd HP)
+             (nbrs shape per) (nbrs shape' per')).
+    - intros p q Hp Hq. apply (gi_adj _ _ _ _ _ Hiso); assumption.
+    - exact (kept_perm shape shape' per per' g Hiso vals vals' minv Hrange Hcarried).
+    - exact Hnd.
+    - exact Hrange.
+  Qed.
+End RelabelSeeds.
 
 (* non-vacuity: a 2 x 3 array, periodic along the first axis, shifted by one row *)
 Example relabel_example :
